@@ -55,7 +55,8 @@ COMPONENTS = {
 }
 PROBES = {"stale_accelerator": 1, "mismatched_accelerator": 1,
           "midx_points_at_removed_pack": 1, "commit_graph_used": 1,
-          "bitmap_present": 1, "long_lived_queried": 1}
+          "bitmap_present": 1, "long_lived_queried": 1,
+          "two_octopus_merges": 1}
 MIN_BUDGET = 120
 
 ACCEL = ["commit-graph", "midx", "bitmap", "packed-refs"]
@@ -81,7 +82,10 @@ def gen_plan(seed, tier):
             "mismatch": rng.choice([None, None, None, "commit-graph", "midx",
                                     "bitmap"]),
             "long_lived": rng.random() < 0.6,
-            "rewrite_after": rng.random() < 0.2}
+            "rewrite_after": rng.random() < 0.2,
+            "octopus": rng.choice([0, 0, 0, 0.3, 0.6]),
+            "warm": rng.choice(["get_raw", "get_raw", "contains", "packs",
+                                "none"])}
 
 
 def strip_accelerators(path):
@@ -207,7 +211,10 @@ def run_plan(plan):
         rp = os.path.join(root, "repo")
         cfg = {((b"pack",), b"indexVersion"): b"%d" % plan["idx_version"]}
         r = util.init_repo(rp, config=cfg)
-        hist = H.gen_history(u, rng, plan["n_commits"], salt=b"A")
+        hist = H.gen_history(u, rng, plan["n_commits"], salt=b"A",
+                             octopus=plan.get("octopus", 0))
+        if sum(1 for c in hist["commits"] if len(u.parents(c)) > 2) >= 2:
+            stats["probe:two_octopus_merges"] = 1
         commits = list(hist["commits"])
         tips = list(hist["heads"]) + list(hist["tags"].values())
         all_ids = sorted(u.closure(commits + list(hist["tags"].values())))
@@ -253,8 +260,16 @@ def run_plan(plan):
         node_c = None
         if plan["long_lived"]:
             node_c = Repo(rp)
-            for oid in all_ids[:5]:
-                node_c.object_store.get_raw(oid)
+            # how much of the store the long-lived node has touched so far
+            warm = plan.get("warm", "get_raw")
+            if warm == "get_raw":
+                for oid in all_ids[:5]:
+                    node_c.object_store.get_raw(oid)
+            elif warm == "contains":
+                for oid in all_ids[:5]:
+                    oid in node_c.object_store  # noqa: B015
+            elif warm == "packs":
+                list(node_c.object_store.packs)
             list(node_c.refs.as_dict())
             try:
                 node_c.object_store.get_midx()
@@ -511,6 +526,11 @@ def shrink(plan):
         if len(plan["accel"]) > 1:
             p = cp()
             p["accel"].remove(a)
+            yield p
+    for k, v in (("octopus", 0), ("warm", "get_raw")):
+        if plan.get(k, v) != v:
+            p = cp()
+            p[k] = v
             yield p
     for k, v in (("mismatch", None), ("long_lived", False),
                  ("rewrite_after", False), ("idx_version", 2), ("npacks", 1)):
